@@ -111,8 +111,8 @@ Lemma no_list_arm t env w :
   no_list t = true -> write_field env t = Ok w -> fw_list w = None.
 Proof.
   intros Hn Hw.
-  destruct t as [k r l0|sf r l0|r|r l0|r l0|f e l0|f64 l0|r l0|r l0|l0|od ts l0|fl|l0]; cbn [no_list] in Hn;
-    try (destruct l0; [discriminate|]); cbn [write_field] in Hw;
+  destruct t as [k r l0|sf r l0|r|r l0|r l0|f e l0|f64 fr l0|r l0|r l0|tr l0|od ts l0|fl orl|orr l0]; cbn [no_list] in Hn;
+    try (destruct l0; [discriminate|]); cbn [write_field] in Hw; try (destruct fr; [discriminate Hw|]);
     try (apply obind_ok in Hw as [x [Hx Hw]]); inversion Hw; subst w; cbn [fw_list with_arm]; try reflexivity.
   inversion Hx. reflexivity.
 Qed.
@@ -126,7 +126,7 @@ Proof.
   assert (Hls : list_seen m w = fw_list w).
   { destruct m; try reflexivity. cbn [list_seen]. symmetry. eapply no_list_arm; eauto. }
   rewrite Hls. clear Hls Hnl. unfold vt_seen.
-  destruct t as [k r l|sf r l|r|r l|r l|f e l|f64 l|r l|r l|l|od ts l|fl|l]; cbn [write_field] in Hw.
+  destruct t as [k r l|sf r l|r|r l|r l|f e l|f64 fr l|r l|r l|tr l|od ts l|fl orl|orr l]; cbn [write_field] in Hw.
   - (* integer *)
     apply obind_ok in Hw as [vo [Hv Hw]]. inversion Hw; subst w; clear Hw.
     cbn [fw_kind fw_val fw_list fw_ext fw_key].
@@ -191,6 +191,7 @@ Proof.
       destruct l as [p0|]; [destruct m; discriminate|]. inversion Hl; subst lst. unfold read_string. cbn.
       destruct e as [[[[[|]|pp ee]|] tn]|]; destruct m; try discriminate; reflexivity.
   - (* float *)
+    destruct fr; [discriminate|].
     inversion Hw; subst w; clear Hw. cbn [fw_kind fw_list].
     destruct f64; cbn [read_field norm_fty]; rewrite get_list_with_arm; reflexivity.
   - (* date *)
@@ -199,18 +200,19 @@ Proof.
   - (* decimal *)
     inversion Hw; subst w; clear Hw. cbn [fw_kind fw_list fw_ext read_field norm_fty].
     rewrite get_list_with_arm. destruct m, r; try discriminate; reflexivity.
-  - (* timestamp *)
+  - (* timestamp: rules without bounds (the writer emits an empty TimestampRules) *)
     inversion Hw; subst w; clear Hw. cbn [fw_kind fw_list fw_val read_field norm_fty vt_of].
-    rewrite get_list_with_arm. reflexivity.
+    rewrite get_list_with_arm.
+    destruct tr as [[[mn|] [mx|] xmn xmx]|]; destruct m; try discriminate; reflexivity.
   - (* any *)
     inversion Hw; subst w; clear Hw. cbn [fw_kind fw_list fw_ext read_field norm_fty].
     rewrite get_list_with_arm.
     destruct m; cbn [j5_seen fw_ext]; try reflexivity;
       apply andb_true_iff in Hrt as [H1 H2]; destruct od; try discriminate;
       destruct ts; try discriminate; reflexivity.
-  - (* object *)
+  - (* object: rules without content *)
     inversion Hw; subst w; clear Hw. cbn [fw_kind fw_ext read_field norm_fty].
-    destruct m, fl; try discriminate; reflexivity.
+    destruct orl as [[[mn|] [mx|]]|]; destruct m, fl; try discriminate; reflexivity.
   - (* oneof *)
     inversion Hw; subst w; clear Hw. cbn [fw_kind fw_list read_field norm_fty].
     rewrite get_list_with_arm. reflexivity.
@@ -222,13 +224,13 @@ Qed.
    proved, it is exactly the set of declarations that read back as declared. *)
 Definition list_of (t : fty) : option lpay :=
   match t with
-  | TInt _ _ l | TStr _ _ l | TBool _ l | TEnum _ l | TKey _ _ l | TFloat _ l | TDate _ l
-  | TDecimal _ l | TTimestamp l | TAny _ _ l | TOneof l => l
-  | TBytes _ | TObject _ => None
+  | TInt _ _ l | TStr _ _ l | TBool _ l | TEnum _ l | TKey _ _ l | TFloat _ _ l | TDate _ l
+  | TDecimal _ l | TTimestamp _ l | TAny _ _ l | TOneof _ l => l
+  | TBytes _ | TObject _ _ => None
   end.
 
 Lemma norm_fty_list env t : list_of (norm_fty env t) = list_of t.
-Proof. destruct t; reflexivity. Qed.
+Proof. destruct t as [| | | | | | | | | | |fl [[[mn|] [mx|]]|]|]; reflexivity. Qed.
 
 Ltac break_in H :=
   repeat (cbn [obind] in H;
@@ -252,7 +254,6 @@ Proof.
     try (eapply read_string_list_none; eassumption).
   - apply obind_ok in H as [r [_ H]]. inversion H. reflexivity.
   - break_in H; inversion H; reflexivity.
-  - break_in H; inversion H; reflexivity.
 Qed.
 
 Lemma pat_plain_false p :
@@ -272,7 +273,7 @@ Proof.
     destruct m; try discriminate. cbn [list_seen]. intro H.
     apply read_field_list_none in H. rewrite norm_fty_list in H.
     destruct t; cbn [no_list list_of] in *; try discriminate; destruct l; discriminate.
-  - destruct t as [k r l|sf r l|r|r l|r l|f e l|f64 l|r l|r l|l|od ts l|fl|l];
+  - destruct t as [k r l|sf r l|r|r l|r l|f e l|f64 fr l|r l|r l|tr l|od ts l|fl orl|orr l];
       try (destruct m; discriminate).
     + (* string *)
       inversion Hw; subst w; clear Hw. cbn [fw_kind read_field norm_fty].
@@ -324,19 +325,25 @@ Proof.
     + (* decimal *)
       inversion Hw; subst w; clear Hw. destruct m, r; try discriminate;
         cbn [fw_kind read_field norm_fty j5_seen]; discriminate.
+    + (* timestamp: bounds are not written *)
+      inversion Hw; subst w; clear Hw.
+      destruct tr as [[[mn|] [mx|] xmn xmx]|]; destruct m; try discriminate;
+        unfold vt_seen; cbn [fw_kind fw_val read_field norm_fty vt_of only_ty c_ty];
+        intro H; inversion H.
     + (* any *)
       inversion Hw; subst w; clear Hw. destruct m; try discriminate;
         cbn [fw_kind read_field norm_fty j5_seen]; intro H; inversion H; subst; discriminate.
-    + (* object *)
-      inversion Hw; subst w; clear Hw. destruct m, fl; try discriminate;
-        cbn [fw_kind read_field norm_fty j5_seen]; discriminate.
+    + (* object: property counts are not written; flatten not inside arrays / maps *)
+      inversion Hw; subst w; clear Hw.
+      destruct orl as [[[mn|] [mx|]]|]; destruct m, fl; try discriminate;
+        cbn [fw_kind read_field norm_fty j5_seen fw_ext]; intro H; inversion H.
 Qed.
 
 (* ---------------------------------------------------------------- one property *)
 Lemma kind_not_map env t w : write_field env t = Ok w -> forall v, fw_kind w <> KdMapEntry v.
 Proof.
   intros Hw v.
-  destruct t as [k r l|sf r l|r|r l|r l|f e l|f64 l|r l|r l|l|od ts l|fl|l]; cbn [write_field] in Hw;
+  destruct t as [k r l|sf r l|r|r l|r l|f e l|f64 fr l|r l|r l|tr l|od ts l|fl orl|orr l]; cbn [write_field] in Hw; try (destruct fr; [discriminate Hw|]);
     try (apply obind_ok in Hw as [x [Hx Hw]]); inversion Hw; subst w; cbn [fw_kind];
     try discriminate.
   - destruct k; discriminate.
@@ -348,7 +355,7 @@ Lemma write_field_primary_ty env t w :
   match fw_key w with Some k => kx_primary k | None => false end = is_primary_ty t.
 Proof.
   intro Hw.
-  destruct t as [k r l|sf r l|r|r l|r l|f e l|f64 l|r l|r l|l|od ts l|fl|l]; cbn [write_field] in Hw;
+  destruct t as [k r l|sf r l|r|r l|r l|f e l|f64 fr l|r l|r l|tr l|od ts l|fl orl|orr l]; cbn [write_field] in Hw; try (destruct fr; [discriminate Hw|]);
     try (apply obind_ok in Hw as [x [Hx Hw]]);
     inversion Hw; subst w; cbn [fw_key is_primary_ty]; try reflexivity.
   destruct e as [[ty tn]|]; [|reflexivity]. cbn. destruct ty as [[[|]|]|]; reflexivity.
@@ -377,7 +384,7 @@ Lemma write_field_constrained env t w :
   write_field env t = Ok w -> is_some (fw_val w) = items_constrained t.
 Proof.
   intro Hw.
-  destruct t as [k r l|sf r l|r|r l|r l|f e l|f64 l|r l|r l|l|od ts l|fl|l]; cbn [write_field] in Hw;
+  destruct t as [k r l|sf r l|r|r l|r l|f e l|f64 fr l|r l|r l|tr l|od ts l|fl orl|orr l]; cbn [write_field] in Hw; try (destruct fr; [discriminate Hw|]);
     try (apply obind_ok in Hw as [x [Hx Hw]]);
     inversion Hw; subst w; cbn [fw_val items_constrained]; try reflexivity.
   - destruct r as [r|].
@@ -387,6 +394,40 @@ Proof.
   - destruct r; reflexivity.
   - destruct r; reflexivity.
   - destruct f as [[| | |]|]; reflexivity.
+  - destruct tr; reflexivity.
+  - destruct orl; reflexivity.
+  - destruct orr; reflexivity.
+Qed.
+
+(* the writer never emits the typeless marker as a type; what the reader sees of an item constraint *)
+Lemma write_field_not_empty env t w c :
+  write_field env t = Ok w -> fw_val w = Some c -> c_ty c <> Some CEmpty.
+Proof.
+  intros Hw Hc.
+  destruct t as [k r l|sf r l|r|r l|r l|f e l|f64 fr l|r l|r l|tr l|od ts l|fl orl|orr l]; cbn [write_field] in Hw; try (destruct fr; [discriminate Hw|]);
+    try (apply obind_ok in Hw as [x [Hx Hw]]);
+    inversion Hw as [Hweq]; rewrite <- Hweq in Hc; cbn [fw_val] in Hc; try discriminate.
+  - destruct r as [r|].
+    + apply obind_ok in Hx as [c0 [Hc0 Hx]]. inversion Hx as [Hxeq]. rewrite <- Hxeq in Hc.
+      inversion Hc as [Hceq]. cbn.
+      apply write_int_ok in Hc0 as [_ Hc0]. rewrite Hc0. discriminate.
+    + inversion Hx as [Hxeq]. rewrite <- Hxeq in Hc. discriminate.
+  - destruct r; inversion Hc; subst; discriminate.
+  - destruct r; inversion Hc; subst; discriminate.
+  - destruct r; inversion Hc; subst; discriminate.
+  - inversion Hc; subst; discriminate.
+  - destruct f as [[| | |]|]; inversion Hc; subst; discriminate.
+  - destruct tr; inversion Hc; subst; discriminate.
+  - destruct orl; inversion Hc; subst; discriminate.
+  - destruct orr; inversion Hc; subst; discriminate.
+Qed.
+
+Lemma strip_item env t w :
+  write_field env t = Ok w -> strip_empty (item_tyc (fw_val w)) = vt_of (fw_val w).
+Proof.
+  intro Hw. destruct (fw_val w) as [c|] eqn:E; [|reflexivity]. cbn [item_tyc vt_of].
+  pose proof (write_field_not_empty env t w c Hw E) as Hn.
+  destruct (c_ty c) as [tc|]; [|reflexivity]. destruct tc; try reflexivity. congruence.
 Qed.
 
 (* the description: written as declared, read through commentDescription *)
@@ -462,9 +503,10 @@ Proof.
       lazy iota beta;
       unfold norm_prop; cbn [p_name p_req p_opt p_ty p_desc]; fold required;
       rewrite <- (write_field_constrained env t wi Hwt);
+      pose proof (strip_item env t wi Hwt) as Hsi;
       destruct required; destruct r as [[mn mx uq]|]; destruct (fw_val wi) as [c|] eqn:Ev;
       cbn [set_required is_some orb only_ty c_ty c_req ar_min ar_max ar_uniq vt_of] in *;
-      rewrite Hf, Hdesc; reflexivity.
+      try (rewrite Ev in Hsi); cbn [vt_of] in Hsi; rewrite ?Hsi; cbn [strip_empty item_tyc]; rewrite Hf, Hdesc; reflexivity.
   - (* map *)
     apply andb_true_iff in Hrt as [Hrt Hopt]. apply negb_true_iff in Hopt. subst opt.
     apply obind_ok in Hwf as [wi [Hwt Hwa]]. inversion Hwa; subst w; clear Hwa.
@@ -476,9 +518,10 @@ Proof.
     unfold vt_seen in Hf; cbn [list_seen j5_seen] in Hf.
     unfold norm_prop. cbn [p_name p_req p_opt p_ty p_desc]. rewrite orb_false_r.
     rewrite <- (write_field_constrained env t wi Hwt).
+    pose proof (strip_item env t wi Hwt) as Hsi.
     destruct req; destruct r as [[mn mx]|]; destruct (fw_val wi) as [c|] eqn:Ev;
       cbn [set_required is_some orb only_ty c_ty c_req mr_min mr_max vt_of] in *;
-      rewrite Hf, Hdesc; reflexivity.
+      try (rewrite Ev in Hsi); cbn [vt_of] in Hsi; rewrite ?Hsi; cbn [strip_empty item_tyc]; rewrite Hf, Hdesc; reflexivity.
 Qed.
 
 
@@ -538,8 +581,10 @@ Proof.
       destruct (fw_kind wi) eqn:Ek; try (exfalso; eapply Hk; reflexivity);
         lazy iota beta;
         unfold norm_prop; cbn [p_name p_req p_opt p_ty p_desc];
+        pose proof (strip_item env t wi Hwt) as Hsi;
         destruct required; destruct r as [[mn mx uq]|]; destruct (fw_val wi) as [c|] eqn:Ev;
         cbn [wrap_array fw_val set_required is_some orb only_ty c_ty c_req ar_min ar_max ar_uniq vt_of] in *;
+        try (rewrite Ev in Hsi); cbn [vt_of] in Hsi; rewrite ?Hsi; cbn [strip_empty item_tyc];
         match goal with
         | |- obind ?rf _ <> _ => destruct rf as [t'| | |]; cbn [obind]; intro H; try discriminate;
                                  apply Hc; inversion H; reflexivity
@@ -565,8 +610,10 @@ Proof.
     + pose proof (field_rt_conv env MMap t wi Hrt Hwt) as Hc.
       unfold vt_seen in Hc; cbn [list_seen j5_seen] in Hc.
       unfold norm_prop; cbn [p_name p_req p_opt p_ty p_desc].
+      pose proof (strip_item env t wi Hwt) as Hsi.
       destruct req; destruct r as [[mn mx]|]; destruct (fw_val wi) as [c|] eqn:Ev;
         cbn [set_required is_some orb only_ty c_ty c_req mr_min mr_max vt_of] in *;
+        try (rewrite Ev in Hsi); cbn [vt_of] in Hsi; rewrite ?Hsi; cbn [strip_empty item_tyc];
         match goal with
         | |- obind ?rf _ <> _ => destruct rf as [t'| | |]; cbn [obind]; intro H; try discriminate;
                                  apply Hc; inversion H; reflexivity
